@@ -214,6 +214,7 @@ func runDumpCase(root string, in *dumpIn, r *rand.Rand, idx int) dumpOut {
 	// C46, first half: the dump holds exactly the stored objects, byte for byte
 	fr, ok := parseDump(stream)
 	addrs := make([]oid.Address, len(fr))
+	owners := make([][]byte, len(fr))
 	seen := map[oid.Address]bool{}
 	if ok && (cnt != in.N || len(fr) != in.N) {
 		ok = false
@@ -228,6 +229,8 @@ func runDumpCase(root string, in *dumpIn, r *rand.Rand, idx int) dumpOut {
 			break
 		}
 		addrs[i] = o.Address()
+		ow := o.Owner()
+		owners[i] = append([]byte(nil), ow[:]...)
 		if seen[addrs[i]] || !bytes.Equal(byAddr[addrs[i]], stream[f.dataOff:f.dataOff+f.n]) {
 			ok = false
 		}
@@ -238,8 +241,16 @@ func runDumpCase(root string, in *dumpIn, r *rand.Rand, idx int) dumpOut {
 	}
 	for _, c := range in.Corrupt {
 		f := fr[c-1]
+		data := stream[f.dataOff : f.dataOff+f.n]
+		// two corruption styles, length unchanged: (a) the record is not a protobuf message any more;
+		// (b) it is one, but a header field is invalid (a byte of the owner ID flipped: its checksum fails),
+		// so decoding fails only after a part of the object has been filled in
+		if pos := bytes.Index(data, owners[c-1]); (idx+c)%2 == 1 && pos >= 0 {
+			data[pos+10] ^= 0x5A
+			continue
+		}
 		for k := 0; k < 8 && k < f.n; k++ {
-			stream[f.dataOff+k] = 0xFF // not a protobuf message any more, length unchanged
+			data[k] = 0xFF
 		}
 	}
 	// ---- reader
